@@ -62,7 +62,22 @@ def main():
         observe(w, 'process: SIGKILL while sending a result larger than the pipe buffer', viol, obs)
         return True
 
-    for fn in (proc_badexc, proc_killed_midsend):
+    def proc_polled():
+        # a history, not an input: wait() polled with timeout 0 while the child - which has already sent its result - is still exiting
+        for k in range(5):
+            w = ProcessWorker(T.ret, args=(42,))
+            n = 0
+            t0 = time.time()
+            while not w.wait(0) and time.time() - t0 < 10:
+                n += 1
+            observe(w, f'process: target returned 42, wait(0) polled {n} times until it returned True (run {k})', viol, obs)
+            if w.has_error is not False or w.result != 42:
+                viol.append(f'process: target returned 42; after {n} unsuccessful wait(0) calls the dead worker reports has_error={w.has_error!r} result={w.result!r} '
+                            f'error={w.error!r} - the result it had already delivered is lost')
+                break
+        return True
+
+    for fn in (proc_badexc, proc_killed_midsend, proc_polled):
         if not guarded(fn):
             viol.append(f'{fn.__name__}: parent blocked')
     server = spawn_server(('127.0.0.1', 0))
